@@ -138,8 +138,21 @@ func lgQuery(cs lgCase) (string, map[string]interface{}) {
 		switch v.V["k"] {
 		case "int":
 			n := int64(v.V["v"].(float64))
+			if v.V["sp"] == "big" { // beyond what the specification's integers hold: carried as decimal text
+				n, _ = strconv.ParseInt(v.V["s"].(string), 10, 64)
+			}
 			q.Set(v.N, fmt.Sprint(n))
 			vals[v.N] = n
+		case "float":
+			f := 0.0
+			if v.V["sp"] == "nan" {
+				f = math.NaN()
+				q.Set(v.N, "NaN")
+			} else {
+				f = v.V["q"].(float64) / 4
+				q.Set(v.N, strconv.FormatFloat(f, 'f', -1, 64))
+			}
+			vals[v.N] = f
 		case "str":
 			q.Set(v.N, v.V["v"].(string))
 			vals[v.N] = v.V["v"].(string)
@@ -394,6 +407,7 @@ func TestVerifLangRun(t *testing.T) {
 				return lgObs{Kind: "value", V: map[string]interface{}{"status": r.Status, "body": r.Body, "compiled": srv.compiled}}
 			})
 			out[name] = res
+			srv.close()
 		}
 		enc.Encode(out)
 	}
